@@ -94,7 +94,9 @@ def run_check(pid, tier, seed):
     broken += regenerate(mod)
 
     # 2. build
-    ok, out, failed, make_cmd, make_s = core.make([props_rel[:-2] + '.vo'])
+    # the closure of the Props file, plus every model file (the case files import *Agree models that no Props file needs)
+    models = [f[:-2] + '.vo' for f in core.coq_files() if f.startswith('Model/')]
+    ok, out, failed, make_cmd, make_s = core.make([props_rel[:-2] + '.vo'] + models)
     names, props_text = core.theorems_of(props_rel)
     obligations = len(names)
     discharged = 0
